@@ -28,7 +28,7 @@ def leak_signature(exc):
             line = ' '.join(linecache.getline(fn, tb.tb_lineno).split())
             site = '%s:%s|%s' % (fn[len(root):], getattr(code, 'co_qualname', code.co_name), line[:80])
         tb = tb.tb_next
-    return '%s@%s' % (type(exc).__name__, site or '?')
+    return '%s@%s' % (core.ename(exc), site or '?')
 
 
 def call_entry(cls, entry, data):
@@ -52,7 +52,7 @@ class Runner(object):
             call_entry(cls, entry, data)
             out = 'ok'
         except self.doc as e:
-            out = type(e).__name__
+            out = core.ename(e)
         except core.Timeout:
             raise
         except RecursionError as e:
@@ -62,7 +62,7 @@ class Runner(object):
         except BaseException as e:  # noqa
             sig = leak_signature(e)
             out = sig
-            acc.violation(sig, '%s escapes %s.parse_%s: %s' % (type(e).__name__, qn.rsplit('.', 1)[1], entry,
+            acc.violation(sig, '%s escapes %s.parse_%s: %s' % (core.ename(e), qn.rsplit('.', 1)[1], entry,
                                                                str(e)[:120]),
                           {'cls': qn, 'entry': entry, 'data': data, 'family': tag})
         self.outcomes.add(out)
@@ -184,7 +184,7 @@ def _extra_entry_points(r, thorough):
         except doc:
             pass
         except BaseException as e:  # noqa
-            acc.violation(leak_signature(e), '%s escapes %s: %s' % (type(e).__name__, label, str(e)[:120]),
+            acc.violation(leak_signature(e), '%s escapes %s: %s' % (core.ename(e), label, str(e)[:120]),
                           {'extra': label, 'data': data, 'family': tag})
 
     def families(seed):
